@@ -739,14 +739,18 @@ func lgRunSchedule(t *testing.T, sc lgSched) (lines []map[string]any, hits map[s
 			case "LoseIdx":
 				// fault injection: the .index object of a segment disappears while the broker is down
 				if !up {
+					gone := false
 					s3.mu.Lock()
 					for key := range s3.idx {
 						if lgBaseOfKey(key) == st.Base {
 							delete(s3.idx, key)
+							gone = true
 						}
 					}
 					s3.mu.Unlock()
-					r.emit(map[string]any{"src": "harness", "ev": "LoseIdx", "base": st.Base})
+					if gone { // when steering diverged the object may not exist: nothing happened, nothing is logged
+						r.emit(map[string]any{"src": "harness", "ev": "LoseIdx", "base": st.Base})
+					}
 				}
 			case "Restart":
 				if !up {
